@@ -918,6 +918,11 @@ int EGLPNUM_TYPENAME_ILLlib_newrow (
 	rval = EGLPNUM_TYPENAME_ILLlib_addrow (lp, B, 0, 0, 0, rhs, sense, range, name);
 	CHECKRVALG (rval, CLEANUP);
 
+	/* unlike EGLPNUM_TYPENAME_ILLlib_addrows this path computes no norm for the
+	 * new basic row: the stored dual norms no longer cover the basis */
+	if (B)
+		EGLPNUM_TYPENAME_EGlpNumFreeArray (B->rownorms);
+
 CLEANUP:
 
 	EG_RETURN (rval);
@@ -1521,6 +1526,8 @@ int EGLPNUM_TYPENAME_ILLlib_delrows (
 		if (bok == 1)
 		{
 			EGLPNUM_TYPENAME_EGlpNumFreeArray (B->colnorms);
+			if (B->rownorms && __EGlpNumArraySize (B->rownorms) < (size_t) nrows)
+				EGLPNUM_TYPENAME_EGlpNumFreeArray (B->rownorms);	/* stale: too short */
 			if (B->rownorms)
 			{
 				for (i = 0, k = 0; i < nstruct; i++)
